@@ -1,4 +1,5 @@
 pub mod cells;
+pub mod crash;
 pub mod db;
 pub mod evbuf;
 pub mod hist;
